@@ -56,7 +56,7 @@ def run(ck):
     claimed_edges = lib.result_edges(g, CONN + "tryUse", True)
     for d_ in g.events("decl"):
         if strip_tmpl(d_.get("icall") or "") in ("std::find_if",) and d_.get("var"):
-            preds = [lf for c_ in g.calls(lambda c_: c_.base_callee() == "std::find_if" and c_.block == d_.block and c_.idx < d_.idx)
+            preds = [lf for c_ in lib.init_calls(g, d_) if c_.base_callee() == "std::find_if"
                      for a_ in c_.get("args", []) if a_.get("lam") for lf in prog.lambda_by_id(a_["lam"].split("#in:")[0], g)]
             if preds and all(any(("c:" + CONN + "tryUse") in (r_.get("refs") or []) for r_ in lf.events("return")) and
                              all(("c:" + CONN + "tryUse") in (r_.get("refs") or []) for r_ in lf.events("return")) for lf in preds):
